@@ -67,7 +67,7 @@ type faultCase struct {
 func c01(args []string) {
 	c := chk.New("C01", "fault_enumeration", args)
 	c.Build(false)
-	c.Rule("directed topologies (single task; 2-output task feeding two consumers; 6 parallel tasks with fan-in; task with additional files) x output-path shapes (plain, nested new directories, ../, absolute) x {command, Go function}; faults: every command failure mode on tasks in turn (exit non-zero before/mid/after writing, SIGKILL, SIGSEGV, shell killed, output omitted / misplaced), the process group killed by the command itself before / in the middle of / after writing, the group killed at hook crash points of every task (enumerated from the event log of a crash-free dry run), kills at logical instants (k-th line of the command trace); oracle after every terminated run: a file at a declared final path implies a successful end event of that task and the complete reference bytes; commands stat their own final path while running (must not exist); every other new file lies inside a _scipipe_tmp.* directory; Go-function tasks also fail by panicking (after half / all of the output is written). distinct_nontrivial = distinct (topology, path shape, kind, fault, target) whose fault really fired (kill observed / failing command ran)")
+	c.Rule("directed topologies (single task; 2-output task feeding two consumers; 6 parallel tasks with fan-in; task with additional files) x output-path shapes (plain, nested new directories, ../, absolute) x {command, Go function}; faults: every command failure mode on tasks in turn (exit non-zero before/mid/after writing, SIGKILL, SIGSEGV, shell killed, output omitted / misplaced), the process group killed by the command itself before / in the middle of / after writing, the group killed at hook crash points of every task (enumerated from the event log of a crash-free dry run), kills at logical instants (k-th line of the command trace); oracle after every terminated run: a file at a declared final path implies a successful end event of that task and the complete reference bytes; commands stat their own final path while running (must not exist); every other new file lies inside a _scipipe_tmp.* directory; commands whose output is written by a helper that outlives them (no failure at all: nothing may be visible before the helper is done); Go-function tasks also fail by panicking (after half / all of the output is written). distinct_nontrivial = distinct (topology, path shape, kind, fault, target) whose fault really fired (kill observed / failing command ran)")
 	c.Assume("working directory, ../ targets and absolute targets are on one file system", "destination directories of ../ and absolute outputs exist before the run (as the property allows)", "<path>.audit.json files and empty directories are not judged")
 	rng := c.Rand("c01")
 	var tcs []topoCase
@@ -231,6 +231,14 @@ func c01(args []string) {
 			}
 		}
 	}
+	// a command whose output is written by a helper that outlives it (background job, process substitution): the
+	// command exits 0 at once, the helper - which holds the command's stdout - writes half of the output, pauses
+	// 1.5 s and writes the rest. Nothing may appear at the final path before the helper is done.
+	for _, k := range []string{"single", "chain", "twoout"} {
+		for r := 0; r < c.Pick(1, 3); r++ {
+			cases = append(cases, &faultCase{tc: topoCase{k, []gen.PathShape{gen.ShapePlain, gen.ShapeNested}[r%2], false, 2}, label: "background-writer", opts: map[string]string{"bgwrite": "1", "pause": "1500", "size": "3000"}, cfg: Cfg{Buf: 128, Procs: 4}})
+		}
+	}
 	run.Parallel(len(cases), func(i int) {
 		fc := cases[i]
 		root := c.CaseDir()
@@ -245,7 +253,7 @@ func c01(args []string) {
 		exp := evalRef(s, nil)
 		bh := gen.TopoBehav(fc.tc.kind, exp)
 		probesFor(root, exp, bh)
-		if fc.xdev && fc.key == "" {
+		if (fc.xdev || fc.label == "background-writer") && fc.key == "" {
 			// target: the first task with outputs
 			for _, t := range exp.Tasks {
 				if len(t.Outs) > 0 {
